@@ -216,6 +216,11 @@ def _elem_mutations(f):
         c = n["callee"]
         if c["name"] in ("expandWith", "sliceWith", "operator+=", "operator-=", "operator=") and c.get("cls", "").startswith("bpp::Range"):
             out.append(n)
+        # an algorithm that permutes ranges_ without keeping the relative order of what it keeps (std::partition swaps a leading
+        # discarded element with the last kept one); stable_partition / remove_if / sort keep or establish the order
+        elif c["name"] in ("partition", "reverse", "rotate", "random_shuffle", "shuffle", "swap_ranges", "iter_swap", "next_permutation", "prev_permutation", "nth_element", "partial_sort") \
+                and c.get("qname", "").startswith("std::") and any(render(x).startswith("ranges_.") for x in f.args(n)):
+            out.append(n)
     return out + _push_backs(f)
 
 
@@ -443,8 +448,12 @@ def _d4(chk, fb):
                             # delete *it ... erase(it)   |  delete ranges_[k] ... erase(begin()+k)
                             if op == "*" + arg or (op.startswith("ranges_[") and op[len("ranges_["):-1] in arg):
                                 match = d
+                    reaching = [d for d in deletes if cfg.stmt_block(d) is not None and (cfg.stmt_block(d) == b or e1.path_exists(cfg, cfg.stmt_block(d), b))]
                     if match is not None:
                         chk.proved("D4", f.key, "delete-before-erase", f.loc(e), "delete %s precedes erase(%s)" % (render(kids(match)[0]), arg))
+                    elif reaching and (len(f.args(e)) == 2 or all(cfg.stmt_block(d) != b for d in reaching)):
+                        # erase(first, last) after a loop that deletes, or a delete in another block: which elements are released is not compared
+                        chk.unknown("D4", f.key, "delete-before-erase", f.loc(e), "a delete (%s) is executed before ranges_.erase(%s); that it releases exactly the erased elements is not decided" % (render(reaching[0]), arg))
                     else:
                         chk.refuted("D4", f.key, "delete-before-erase", f.loc(e), "ranges_.erase(%s) without deleting the element first (leak / dangling ownership)" % arg)
                 for d in deletes:
